@@ -6,6 +6,7 @@ package router
 
 import (
 	"fmt"
+	"regexp"
 	"strings"
 	"testing"
 	"time"
@@ -29,7 +30,7 @@ func (r c10Rule) String() string {
 
 func c10Alphabet() []c10Rule {
 	var out []c10Rule
-	for _, d := range []string{"", "A", "B"} {
+	for _, d := range []string{"", "A", "B", "E"} {
 		for _, rev := range []bool{false, true} {
 			for _, rej := range []uint16{0, 2, 3, 5} {
 				for _, f := range []string{"", "u1", "u2"} {
@@ -41,7 +42,9 @@ func c10Alphabet() []c10Rule {
 	return out
 }
 
-var c10Sets = map[string][]string{"A": {"a.test", "shared.test"}, "B": {"b.test", "shared.test"}}
+// A also holds a regexp entry with a case-sensitive escape (\D: not a digit; lower-casing the file would turn it into \d); E is a
+// domain set without entries (a file of comments): it matches nothing.
+var c10Sets = map[string][]string{"A": {"a.test", "shared.test", `regexp:^re\D\.zone$`}, "B": {"b.test", "shared.test"}, "E": {}}
 
 // reference interpreter
 func c10Ref(rules []c10Rule, lowerName string) (rcode int, upstream string) {
@@ -49,7 +52,11 @@ func c10Ref(rules []c10Rule, lowerName string) (rcode int, upstream string) {
 		if r.domain != "" {
 			in := false
 			for _, e := range c10Sets[r.domain] {
-				if lowerName == e || strings.HasSuffix(lowerName, "."+e) {
+				if re, ok := strings.CutPrefix(e, "regexp:"); ok {
+					if regexp.MustCompile(re).MatchString(lowerName) {
+						in = true
+					}
+				} else if lowerName == e || strings.HasSuffix(lowerName, "."+e) {
 					in = true
 				}
 			}
@@ -78,6 +85,8 @@ func c10Queries() []c10Q {
 	for _, n := range []refdns.Name{refdns.N("a", "test"), refdns.N("B", "Test"), refdns.N("www", "Shared", "TEST"), refdns.N("other", "test")} {
 		out = append(out, c10Q{n, 1, 1}, c10Q{n, 16, 3})
 	}
+	// in A by its regexp entry / not in A (a digit where the entry wants a non-digit)
+	out = append(out, c10Q{refdns.N("reX", "zone"), 1, 1}, c10Q{refdns.N("re1", "zone"), 1, 1})
 	return out
 }
 
@@ -104,6 +113,7 @@ func c10Scenario(c *choice.Ctx, rep *report.R, alpha []c10Rule, maxLen int, sub 
 	cfg.DomainSets = []DomainSetConfig{
 		{Tag: "A", Files: []string{vTmpFile("c10_A.txt", strings.Join(c10Sets["A"], "\n")+"\n")}},
 		{Tag: "B", Files: []string{vTmpFile("c10_B1.txt", c10Sets["B"][0]+"\n"), vTmpFile("c10_B2.txt", "# second file\n"+c10Sets["B"][1]+"\n")}},
+		{Tag: "E", Files: []string{vTmpFile("c10_E.txt", "# nothing in here\n\n   # really\n")}},
 	}
 	for _, r := range rules {
 		cfg.Rules = append(cfg.Rules, RuleConfig{Reverse: r.reverse, Domain: r.domain, Reject: r.reject, Forward: r.forward})
@@ -215,15 +225,15 @@ func TestVerifC10(t *testing.T) {
 	// 12-rule sub-alphabet for length-3 lists
 	var sub []int
 	for i, r := range alpha {
-		if (r.reject == 0 || r.reject == 3) && !(r.reject == 3 && r.forward == "u2") && !(r.domain == "" && r.reverse) {
+		if (r.reject == 0 || r.reject == 3) && !(r.reject == 3 && r.forward == "u2") && !(r.domain == "" && r.reverse) && r.domain != "E" {
 			if r.domain == "B" && r.forward == "u1" {
 				continue
 			}
 			sub = append(sub, i)
 		}
 	}
-	rep.Rule = fmt.Sprintf("E3: all rule lists of length 0..%d over the full %d-rule alphabet {domain none/A/B} x reverse x reject {0,2,3,5} x forward {none,u1,u2} (length-3 lists over a %d-rule sub-alphabet), domain sets A,B share an entry and B is split over two files, "+
-		"cache off/on, no upstream / u1 / u2 failing every exchange, loaded by the real run(); 8 queries (names in A only / B only / both / neither, mixed case; A/IN and TXT/CH) sent twice through the tcp seam and, with a cache, a third time in the last quarter of the ttl (hit + background refresh); upstreams are recording auto-responders; "+
+	rep.Rule = fmt.Sprintf("E3: all rule lists of length 0..%d over the full %d-rule alphabet {domain none/A/B/E (E: a set without entries)} x reverse x reject {0,2,3,5} x forward {none,u1,u2} (length-3 lists over a %d-rule sub-alphabet), domain sets A,B share an entry, B is split over two files, A also holds a regexp entry with a case-sensitive escape, "+
+		"cache off/on, no upstream / u1 / u2 failing every exchange, loaded by the real run(); 10 queries (names in A only / B only / both / neither, mixed case; A/IN and TXT/CH; two names that differ in what the regexp entry's \\D accepts) sent twice through the tcp seam and, with a cache, a third time in the last quarter of the ttl (hit + background refresh); upstreams are recording auto-responders; "+
 		"oracle vs reference interpreter: client rcode (SERVFAIL when the selected upstream fails), exactly the selected upstream is contacted exactly once (never on the second round with the cache on), forwarded question is lower-cased with same class/type and RD=1, answer is that upstream's answer",
 		maxLen, len(alpha), len(sub))
 	st := runExplore(t, rep, -1, func(c *choice.Ctx) { c10Scenario(c, rep, alpha, maxLen, sub) })
